@@ -217,6 +217,63 @@ pub fn check(c: &Case, stats: &mut Stats) -> CheckResult {
     Ok(())
 }
 
+/// A large ontology (more terms than any 16-bit index can address): `n` parentless
+/// terms with ids offset + i*stride, every id of the id space looked up.
+pub fn check_bulk(n: u32, stride: u32, offset: u32, stats: &mut Stats) -> CheckResult {
+    use hpo::builder::Builder;
+    ensure!(n > 0 && stride > 0 && u64::from(offset) + u64::from(n - 1) * u64::from(stride) < u64::from(ID_SPACE), "harness/bad-case", "bulk ids must stay below 10^7");
+    let ont = guarded(|| {
+        let mut b = Builder::new();
+        // inserted in descending id order so that slot order and id order differ
+        for i in (0..n).rev() {
+            let id = offset + i * stride;
+            b.new_term(&format!("t{id}"), id);
+        }
+        b.terms_complete().connect_all_terms().calculate_information_content().map(|b| b.build_minimal())
+    });
+    let ont = match ont {
+        Ok(Ok(o)) => o,
+        Ok(Err(e)) => return fail("lookup/bulk/construct", format!("building {n} terms failed: {e}")),
+        Err(p) => return fail("lookup/bulk/construct-panic", format!("building {n} terms panicked: {p}")),
+    };
+    ensure!(ont.len() == n as usize, "lookup/bulk/len", "len() = {} after adding {n} distinct terms", ont.len());
+    let r = guarded(|| -> CheckResult {
+        let mut count = 0u32;
+        let mut seen = std::collections::HashSet::new();
+        for t in &ont {
+            let id = t.id().as_u32();
+            ensure!(id >= offset && (id - offset) % stride == 0 && (id - offset) / stride < n && seen.insert(id), "lookup/bulk/iteration", "iteration yields {id} (not added, or twice)");
+            count += 1;
+        }
+        ensure!(count == n, "lookup/bulk/iteration", "iteration yields {count} terms, {n} were added");
+        for id in 0..ID_SPACE {
+            let present = id >= offset && (id - offset) % stride == 0 && (id - offset) / stride < n;
+            match ont.hpo(id) {
+                Some(t) if present => {
+                    ensure!(t.id().as_u32() == id, "lookup/bulk/wrong-term", "hpo({id}) returned term {} ({n} terms in the ontology)", t.id());
+                    if id % 97 == 0 {
+                        ensure!(t.name() == format!("t{id}"), "lookup/bulk/wrong-data", "hpo({id}) carries name {:?}", t.name());
+                    }
+                }
+                None if !present => {}
+                Some(t) => return fail("lookup/bulk/phantom", format!("hpo({id}) returned {} but {id} was never added", t.id())),
+                None => return fail("lookup/bulk/missing", format!("hpo({id}) is None but the term was added (insertion number {} of {n})", n - (id - offset) / stride)),
+            }
+        }
+        Ok(())
+    });
+    match r {
+        Ok(r) => r?,
+        Err(p) => return fail("lookup/bulk/panic", p),
+    }
+    stats.eval(u64::from(ID_SPACE));
+    stats.count("ids_swept", u64::from(ID_SPACE));
+    stats.count("bulk_terms", u64::from(n));
+    stats.label("bulk>65535-terms");
+    stats.nontrivial(hash_json(&(n, stride, offset)));
+    Ok(())
+}
+
 fn short_name() -> impl Strategy<Value = String> {
     prop_oneof![
         4 => "[ab ]{0,4}",
@@ -278,7 +335,7 @@ impl Property for C10 {
         "C10"
     }
     fn rule(&self) -> String {
-        "Generated: ontologies with dense / sparse / border id sets (0, 1, 9_999_999), duplicated new_term calls (first wins), 0-6 records per kind with short names from a tiny alphabet (duplicates, names that are substrings of one another, multi-byte), built through the Builder (free-form) or own v3 bytes (flags, replacements). Keys: every present id, present±1, {0,1,9_999_999,10^7,10^7+1,2^31,u32::MAX}, generated u32. A generated fraction of cases sweeps ALL 10^7 ids plus 2^20 pseudo-random larger values. Oracle: hpo(k) is Some iff k was added, and carries id/name/flags of the first addition; iter/hpos/&ont yield every id once and agree with len; gene/omim/orpha lookups by id exact per kind; gene_by_name exact match or None iff none; omim_diseases_by_name = exactly the diseases whose name contains the query (queries: names, substrings on char boundaries, '', absent strings); omim_disease_by_name one of them or None iff none. evaluations = keys + swept ids + queries. Non-trivial = id set contains 0 or 9_999_999 or two adjacent ids; distinct by hash(facts, queries, path).".into()
+        "Generated: ontologies with dense / sparse / border id sets (0, 1, 9_999_999), duplicated new_term calls (first wins), 0-6 records per kind with short names from a tiny alphabet (duplicates, names that are substrings of one another, multi-byte), built through the Builder (free-form) or own v3 bytes (flags, replacements). Keys: every present id, present±1, {0,1,9_999_999,10^7,10^7+1,2^31,u32::MAX}, generated u32. A generated fraction of cases sweeps ALL 10^7 ids plus 2^20 pseudo-random larger values. Deterministic sub-sweep: ontologies with 65_536 and 70_000 (thorough also 131_073 and 200_000) terms, inserted in descending id order, every id of the id space looked up. Oracle: hpo(k) is Some iff k was added, and carries id/name/flags of the first addition; iter/hpos/&ont yield every id once and agree with len; gene/omim/orpha lookups by id exact per kind; gene_by_name exact match or None iff none; omim_diseases_by_name = exactly the diseases whose name contains the query (queries: names, substrings on char boundaries, '', absent strings); omim_disease_by_name one of them or None iff none. evaluations = keys + swept ids + queries. Non-trivial = id set contains 0 or 9_999_999 or two adjacent ids; distinct by hash(facts, queries, path).".into()
     }
     fn assumptions(&self) -> Vec<String> {
         vec![
@@ -293,12 +350,49 @@ impl Property for C10 {
         }
     }
     fn required_labels(&self, _tier: Tier) -> Vec<&'static str> {
-        vec!["nontrivial", "full-sweep", "id0", "id9999999", "adjacent-ids", "duplicate-new_term", "duplicate-gene-names", "query-matches-several-not-all"]
+        vec!["nontrivial", "bulk>65535-terms", "full-sweep", "id0", "id9999999", "adjacent-ids", "duplicate-new_term", "duplicate-gene-names", "query-matches-several-not-all"]
     }
     fn run_generated(&self, tier: Tier, seed: u64, n: u64, stats: &mut Stats) -> Option<(Value, Failure)> {
         run_typed(strategy(tier), seed, n, stats, check)
     }
     fn replay(&self, case: &Value, stats: &mut Stats) -> Result<CheckResult, String> {
+        if let Some(b) = case.get("bulk").and_then(|b| b.as_array()) {
+            let v: Vec<u32> = b.iter().filter_map(|x| x.as_u64().map(|x| x as u32)).collect();
+            if v.len() == 3 {
+                stats.cases += 1;
+                return Ok(check_bulk(v[0], v[1], v[2], stats));
+            }
+        }
         replay_typed::<Case, _>(case, stats, check)
+    }
+    fn extra(&self, tier: Tier, seed: u64, stats: &mut Stats) -> Vec<(Value, Failure)> {
+        // large ontologies: more terms than a 16-bit slot index can address
+        let mut plans: Vec<(u32, u32, u32)> = vec![(70_000, 137, (seed % 100) as u32), (65_536, 1, 1 + (seed % 1000) as u32)];
+        if tier == Tier::Thorough {
+            plans.push((200_000, 49, 3));
+            plans.push((131_073, 76, 0));
+        }
+        let results: Vec<(Stats, Option<(Value, Failure)>)> = std::thread::scope(|sc| {
+            let hs: Vec<_> = plans
+                .iter()
+                .map(|(n, s, o)| {
+                    let (n, s, o) = (*n, *s, *o);
+                    sc.spawn(move || {
+                        let mut st = Stats::default();
+                        let r = check_bulk(n, s, o, &mut st);
+                        (st, r.err().map(|f| (json!({"bulk": [n, s, o]}), f)))
+                    })
+                })
+                .collect();
+            hs.into_iter().filter_map(|h| h.join().ok()).collect()
+        });
+        let mut out = Vec::new();
+        for (st, r) in results {
+            stats.merge(st);
+            if let Some(x) = r {
+                out.push(x);
+            }
+        }
+        out
     }
 }
